@@ -10,12 +10,17 @@ import bgen
 import vlib
 
 NCPU = os.cpu_count() or 4
+# where evidence and replays are written (overridden when a check is pointed
+# at a scratch copy carrying a seeded change, so that the committed evidence is
+# not overwritten)
+EVIDENCE_DIR = os.environ.get("VERIF_EVIDENCE_DIR") or os.path.join(vlib.VERIF, "evidence")
+REPLAYS_DIR = os.environ.get("VERIF_REPLAYS_DIR") or os.path.join(vlib.VERIF, "replays")
 
 
 class Ctx:
     def __init__(self, prop, tier, seed, scratch, replay=None):
         import glob
-        for f in glob.glob(os.path.join(vlib.VERIF, "replays", prop + "-*.json")):
+        for f in glob.glob(os.path.join(REPLAYS_DIR, prop + "-*.json")):
             if replay is None or os.path.abspath(f) != os.path.abspath(replay):
                 os.remove(f)
         self.prop = prop
@@ -91,7 +96,7 @@ class Ctx:
         rc = 0
         if unlisted:
             rc = 1
-            os.makedirs(os.path.join(vlib.VERIF, "replays"), exist_ok=True)
+            os.makedirs(REPLAYS_DIR, exist_ok=True)
             seen = set()
             n = 0
             for v in unlisted:
@@ -100,7 +105,7 @@ class Ctx:
                     continue
                 seen.add(sig)
                 n += 1
-                path = os.path.join(vlib.VERIF, "replays", "%s-%d-%d.json" % (self.prop, self.seed, n))
+                path = os.path.join(REPLAYS_DIR, "%s-%d-%d.json" % (self.prop, self.seed, n))
                 json.dump(v, open(path, "w"), indent=1, default=str)
                 print("VIOLATION property=%s replay=%s  (%s)" % (self.prop, path, v.get("why")))
                 if n >= 10:
@@ -130,8 +135,8 @@ class Ctx:
         ev = dict(property_id=self.prop, tier=self.tier, seed=self.seed, level=self.level,
                   coverage=cov, assumptions=self.assumptions, wall_s=round(wall, 1),
                   violations=nviol)
-        os.makedirs(os.path.join(vlib.VERIF, "evidence"), exist_ok=True)
-        json.dump(ev, open(os.path.join(vlib.VERIF, "evidence", self.prop + ".json"), "w"), indent=1, default=str)
+        os.makedirs(EVIDENCE_DIR, exist_ok=True)
+        json.dump(ev, open(os.path.join(EVIDENCE_DIR, self.prop + ".json"), "w"), indent=1, default=str)
 
 
 def load_known():
